@@ -683,7 +683,8 @@ pub fn random_record(rng: &mut Rng) -> Vec<u8> {
             // unusable length: below 6 or beyond the data
             let a = gen_avp(rng, 8);
             let p = enc_payload(&a);
-            let len = if rng.bool() { rng.below(6) as usize } else { 6 + p.len() + rng.range(1, 30) as usize };
+            let excess = if rng.bool() { rng.range(1, 3) as usize } else { rng.range(1, 30) as usize };
+            let len = if rng.chance(1, 3) { rng.below(6) as usize } else { 6 + p.len() + excess };
             enc_record(1, len & 0x3ff, 0, avp_type(&a), &p)
         }
         14 => {
